@@ -623,3 +623,128 @@ func runCryptoStream(w *bufio.Writer, seed uint64, n int, _ []string) {
 	}
 	fmt.Fprintf(w, "DIST\trandom\t%d\nDIST\twith-data\t%d\n", n, nt)
 }
+
+// ---------------------------------------------------------------------------------------
+// cryptomgr: cryptoStreamManager routes CRYPTO frames by encryption level to three
+// independent crypto streams; every level carries its own byte string.
+
+func init() { units["cryptomgr"] = runC03CryptoMgr }
+
+func c03LevelByte(l int, x int64) byte { return c03Byte(x + 7919*int64(l)) }
+
+func runC03CryptoMgr(w *bufio.Writer, seed uint64, n int, _ []string) {
+	r := u.NewRng(seed)
+	nt := 0
+	for i := 0; i < n; i++ {
+		cr := r.Fork()
+		nops := cr.Range(3, 16)
+		var items []string
+		var desc []string
+		got := false
+		func() {
+			defer func() {
+				if rec := recover(); rec != nil {
+					fmt.Fprintf(w, "MONFAIL\tcryptomgr/panic\tpanic: %v\t%s\n", rec, strings.Join(desc, " "))
+					items = nil
+				}
+			}()
+			monfail := func(key, d string) {
+				fmt.Fprintf(w, "MONFAIL\tcryptomgr/%s\t%s\t%s\n", key, d, strings.Join(desc, " "))
+			}
+			m := quic.C03VerifNewCryptoMgr(cr.Bool())
+			var delivered, highest [3]int64
+			var finished [3]bool
+			bounds := []int64{0}
+			for j := 0; j < 5; j++ {
+				bounds = append(bounds, bounds[len(bounds)-1]+c03CellSizes[cr.Intn(7)])
+			}
+			for j := 0; j < nops; j++ {
+				k := cr.Intn(100)
+				l := cr.Intn(3)
+				switch {
+				case k < 55:
+					if cr.Chance(1, 30) {
+						l = 3
+					}
+					a := cr.Intn(5)
+					if cr.Chance(1, 2) {
+						a = 0
+					}
+					b := cr.Range(a+1, min(5, a+3))
+					off, ln := bounds[a], bounds[b]-bounds[a]
+					desc = append(desc, fmt.Sprintf("crypto@%d[%d,+%d)", l, off, ln))
+					data := make([]byte, ln)
+					for x := range data {
+						data[x] = c03LevelByte(l, off+int64(x))
+					}
+					want := int64(0)
+					if l == 3 {
+						want = 4
+					} else if finished[l] && off+ln > highest[l] {
+						want = 2
+					}
+					cls := m.Handle(l, data, off)
+					if cls != want {
+						monfail("reject", fmt.Sprintf("CRYPTO frame at level %d: error class %d, expected %d", l, cls, want))
+					}
+					if cls == 0 && l < 3 && !finished[l] && off+ln > highest[l] {
+						highest[l] = off + ln
+					}
+					items = append(items, u.Pair(u.App("MFrame", u.Z(int64(l)), u.Z(off), u.Z(ln)), u.App("COut", u.Z(cls), "0", "0")))
+					if cls != 0 {
+						return
+					}
+				case k < 85:
+					desc = append(desc, fmt.Sprintf("get@%d", l))
+					d := m.Get(l)
+					for x := range d {
+						if d[x] != c03LevelByte(l, delivered[l]+int64(x)) {
+							monfail("bytes", fmt.Sprintf("GetCryptoData(level %d) at %d: byte +%d is not what was sent at that level", l, delivered[l], x))
+							break
+						}
+					}
+					if delivered[l]+int64(len(d)) > highest[l] {
+						monfail("bytes", fmt.Sprintf("GetCryptoData(level %d) delivered bytes never received at that level", l))
+					}
+					delivered[l] += int64(len(d))
+					if len(d) > 0 {
+						got = true
+					}
+					items = append(items, u.Pair(u.App("MGet", u.Z(int64(l))), u.App("COut", "0", u.Z(int64(len(d))), u.Z(c03Hash(d)))))
+				default:
+					l = cr.Intn(2)
+					desc = append(desc, fmt.Sprintf("drop@%d", l))
+					cls := m.Drop(l)
+					if (cls == 2) != (delivered[l] < highest[l] && !finished[l]) && !(finished[l] && cls == 0) {
+						// Finish fails iff data is still queued; approximated by "received beyond delivered"
+						// (exact when the level's data is contiguous) — only report clear contradictions
+						if cls == 0 && delivered[l] == 0 && highest[l] > 0 && !finished[l] {
+							monfail("drop", fmt.Sprintf("Drop(level %d) succeeded although nothing of the %d received bytes was read", l, highest[l]))
+						}
+					}
+					if cls == 0 {
+						finished[l] = true
+					}
+					items = append(items, u.Pair(u.App("MDrop", u.Z(int64(l))), u.App("COut", u.Z(cls), "0", "0")))
+					if cls != 0 {
+						return
+					}
+				}
+			}
+			if got {
+				nt++
+			}
+		}()
+		if items != nil {
+			k := 0
+			if got {
+				k = 1
+			}
+			fmt.Fprintf(w, "CASE %d %s\n", k, u.App("MCase", u.List(items)))
+		}
+		if i < 2 {
+			fmt.Fprintf(w, "SAMPLE\t%s\n", strings.Join(desc, " "))
+		}
+	}
+	fmt.Fprintf(w, "DIST\trandom\t%d\nDIST\twith-data\t%d\n", n, nt)
+}
